@@ -429,7 +429,7 @@ open PromVerif.Model.Values in
     (prefix, key) (stale objects left by `remove()`/`clear()` are fine; the real code loses updates when an older object
     is updated too: `C09.two_objects_lose_updates`); `GoodPS.no_pid_label` (known finding F24);
     `GoodPS.consistent` — one type and gauge mode per metric name; identities free of `_`; `hfmt` — the bound formatter is
-    injective on parsed bounds (C13, `fmt_injective_of_repr`).  Simultaneously running workers are represented by
+    injective on parsed bounds (C13: `Props.C13Injective.go_injective_texts` via `fmt_injective_of_repr`).  Simultaneously running workers are represented by
     listing each worker's calls contiguously: they have distinct identities, hence touch disjoint files
     (`C09.writes_only_own_files`) and commute — this commutation is argued, not proved. -/
 theorem collect_workers_partial (vo : VOps V) (bo : BOps B) [DecidableEq B] (PS : List Params) (hPS : GoodPS bo PS)
